@@ -160,7 +160,13 @@ func checkC33(p *Prog, r *Result, tier string) {
 			// slice: sorted by a comparator that (through local closures) reads the affinity parameter — in the planner
 			// itself, or in a local helper that returns the ordered list and is handed the affinity map
 			why = sortedByAffinity(p, G, exprStr(rs.X), rs.X, aff, derived)
-			if c, ok := unparen(rs.X).(*ast.CallExpr); ok && why != "" {
+			listExpr := unparen(rs.X)
+			if o := G.objOf(listExpr); o != nil {
+				if def := G.singleDef(o); def != nil {
+					listExpr = unparen(def)
+				}
+			}
+			if c, ok := listExpr.(*ast.CallExpr); ok && why != "" {
 				if H := p.ByObj[G.Callee(c)]; H != nil && H.Body != nil && H.Pkg == G.Pkg {
 					var haff types.Object
 					for i, a := range c.Args {
